@@ -65,10 +65,10 @@ CHECKS.update({
  'C15': dict(
    text="Proof: Properties/C15.v - packing: unpack(pack p) = p for parameters consistent with their modes and pack(unpack v) = v for every vector, all modes and groupings (polymorphic, unbounded); "
         "gradient: the scalar model functions are REGENERATED from /repo's source on every run (tools/py2coq_fitfun.py -> coq/Gen/fitfun.v) and each d-function is proved to be the derivative of "
-        "its function (Coquelicot), plus the per-pixel chain rule, per-cluster sum rule and the pack-sum adjoint identity. Correspondence: vect_from_params/vect_to_params exactly on "
+        "its function (Coquelicot), plus the per-pixel chain rule, per-cluster sum rule, pack-sum adjoint, and their composition C15_gradient_exact: the assembled jacobian is the derivative of the assembled residual in every component of the packed vector, for all modes and groupings. Correspondence: vect_from_params/vect_to_params exactly on "
         "integer-valued arrays; jacobian vs central differences of the residual through FitFunctions.",
    note=STAT_NOTE + "Axioms (Print Assumptions, calculus theorems only): ClassicalDedekindReals.sig_forall_dec, sig_not_dec, Classical_Prop.classic, FunctionalExtensionality.functional_extensionality_dep "
-        "(Coq standard library real numbers). The final end-to-end assembly of the jacobian is covered numerically, not by a theorem; safe_exp's underflow cut is not modelled.",
+        "(Coq standard library real numbers). The R-valued assembly model is tied to the code by the jacobian-vs-central-differences monitor; safe_exp's underflow cut is not modelled.",
    technique="translator from Python source to Coq (regenerated per run) + machine-checked derivative proofs (Coquelicot) + correspondence run"),
  'C16': dict(
    text="Proof (partial): Properties/C16.v - the bounds box is exactly the intersection of requested and default intervals; default bounds keep positions within the mask radius and "
@@ -90,9 +90,9 @@ CHECKS.update({
  'C19': dict(
    text="Proof (partial): Properties/C19.v - cluster: same id iff connected by a chain of features within separation, sizes = component sizes, ids never reused across frames, monitor sound; "
         "proximity = distance to the nearest other feature; g(r) = corrected pair histogram / (density*N*dr), invariant under permutation and (given boundary) translation; 2-D edge correction: "
-        "the excluded-angle interval lemmas; 3-D: consistency identities only. Correspondence: exact models vs trackpy.static on lattice point sets; arclen_2d_bounded / area_3d_bounded against "
+        "arclen_2d_bounded = r x measure of the directions inside the box, for every r > 0 and centre in the box; 3-D: consistency identities only. Correspondence: exact models vs trackpy.static on lattice point sets; arclen_2d_bounded / area_3d_bounded against "
         "independent geometric references.",
-   note=STAT_NOTE + "The full 2-D inclusion-exclusion and the 3-D closed forms as areas are covered numerically only. Geometry theorems depend on the Coq standard library real-number axioms "
+   note=STAT_NOTE + "The 3-D closed forms as areas are covered numerically only. Geometry theorems depend on the Coq standard library real-number axioms "
         "(sig_forall_dec, sig_not_dec, classic, functional_extensionality_dep)."),
  'C20': dict(
    text="Proof: Properties/C20.v - filter_stubs / filter_clusters (modelled as pandas' groupby-filter algorithm) keep exactly the rows of qualifying trajectories with order and values "
@@ -134,7 +134,7 @@ CHECKS.update({
  'C09': dict(
    text="Proof (partial): Properties/C09.v - for the integer, preprocess=False pipeline (C06 maxima model + C07 refinement model, any number of axes) moving the content by whole pixels inside "
         "a blank canvas moves every row's position by exactly that offset and changes no other column (maxima, refinement and their composition; the harness' embedding satisfies the relational "
-        "premises); the maxima stage commutes with transposition; batch is the concatenation of locate per frame tagged with frame_no (or the position) and is independent of the completion "
+        "premises); maxima, refinement and the composed pipeline commute with any axis permutation (positions and per-axis sizes permuted, everything else identical); batch is the concatenation of locate per frame tagged with frame_no (or the position) and is independent of the completion "
         "order of Pool.imap workers; monitors sound; ecc's numerator provably differs under transposition (F13 witness). Correspondence: images x offsets x axis orders x locate parameters "
         "(incl. canvases > 1 Mpx with a ladder of dim blobs at the percentile threshold), every reported column compared; batch with 1, 2 and more processes and shuffled frame orders.",
    note=STAT_NOTE + "Bandpass under shift, the where_close dedupe, minmass/maxsize/topn, ep, float images, refinement under transposition and real Pool workers are covered by correspondence only. "
